@@ -23,6 +23,7 @@ import (
 	"github.com/google/badwolf/bql/lexer"
 	"github.com/google/badwolf/bql/table"
 	"github.com/google/badwolf/triple/literal"
+	"github.com/google/badwolf/triple/predicate"
 )
 
 // Evaluator interface computes the evaluation of a boolean expression.
@@ -376,6 +377,10 @@ func (e *comparisonForPredicateLiteral) Evaluate(r table.Row) (bool, error) {
 
 	switch e.operation {
 	case EQ:
+		if p, err := predicate.Parse(csER); err == nil {
+			// The same predicate may be written with its time anchor in another time zone.
+			return leftBinding.P.UUID().String() == p.UUID().String(), nil
+		}
 		return csEL == csER, nil
 	default:
 		return false, fmt.Errorf(`comparisonForPredicateLiteral.Evaluate got operation %q, but it accepts only the "=" operation. For ">" and "<" think about extracting bindings with the keywords ID/AT and using them for comparisons`, e.operation)
